@@ -75,13 +75,13 @@ def main():
         orders_forced = set()
         notes = []
         rlib_debug = None
-        for release in (False, True):
-            prof = "release" if release else "debug"
-            exes, rlib, deps = cargo_build(args.repo, release, ["threads"])
-            if not release:
+        for release, feats in ((False, None), (True, None), (False, ["pedantic"])):
+            prof = ("release" if release else "debug") + ("+pedantic-debug-assertions" if feats else "")
+            exes, rlib, deps = cargo_build(args.repo, release, ["threads"], features=feats)
+            if not release and not feats:
                 rlib_debug = (rlib, deps)
             # --- independent programs
-            for seed in seeds:
+            for seed in (seeds if not feats else seeds[:1]):
                 rc, out, err = run_probe(exes["threads"], ["run", "--seed", str(seed), "--threads", threads,
                                                            "--rounds", str(rounds), "--ops", str(ops)], timeout=600)
                 lines = out.splitlines()
@@ -147,7 +147,7 @@ def main():
         summary["teardown_scenarios"] = scenarios
         summary["teardown_orders_forced"] = sorted(orders_forced)
         summary["teardown_contents"] = CONTENTS
-        summary["profiles"] = ["debug", "release"]
+        summary["profiles"] = ["debug", "release", "debug+pedantic-debug-assertions"]
         summary["samples"] = samples[:5]
         summary["noted"] = notes[:40]
         for n in notes[:5]:
